@@ -45,6 +45,10 @@ class Result:
 def to_smt2(assertions, model_vars=None, get_values=False):
     s = z3.Solver()
     s.add(*assertions)
+    if get_values and model_vars:
+        # make sure every requested constant is declared even if the obligation does not mention it
+        for v in model_vars:
+            s.add(z3.Or(v == v, z3.BoolVal(True)) if False else (v == v))
     body = s.sexpr()
     # z3-internal spellings of standard operators (divisor known non-zero: MIR asserts it before every division)
     for a, b in (('bvudiv_i', 'bvudiv'), ('bvurem_i', 'bvurem'), ('bvsdiv_i', 'bvsdiv'), ('bvsrem_i', 'bvsrem'), ('bvsmod_i', 'bvsmod')):
